@@ -71,9 +71,11 @@ func lockOrderSchedule(closer, opener string) (string, []string) {
 	aDone, bDone := make(chan struct{}), make(chan struct{})
 	var bTxn *lungo.Transaction
 	go func() {
+		defer func() { _ = recover() }()
 		mu.Lock()
 		aGid = lungo.VerifGoroutineID()
 		mu.Unlock()
+		defer close(aDone)
 		switch closer {
 		case "commit":
 			_ = sess.CommitTransaction(nil)
@@ -82,7 +84,6 @@ func lockOrderSchedule(closer, opener string) (string, []string) {
 		default:
 			sess.EndSession(nil)
 		}
-		close(aDone)
 	}()
 	select {
 	case <-reached:
@@ -91,6 +92,8 @@ func lockOrderSchedule(closer, opener string) (string, []string) {
 	}
 	bGid := make(chan uint64, 1)
 	go func() {
+		defer func() { _ = recover() }()
+		defer close(bDone)
 		bGid <- lungo.VerifGoroutineID()
 		ctx := lungo.VerifSessionContext(nil, sess)
 		if opener == "begin" {
@@ -98,7 +101,6 @@ func lockOrderSchedule(closer, opener string) (string, []string) {
 		} else {
 			_, _ = lungo.VerifUseTransaction(ctx, engine, true, func(t *lungo.Transaction) (interface{}, error) { return nil, nil })
 		}
-		close(bDone)
 	}()
 	gb := <-bGid
 	// wait until B cannot run any more (blocked on a mutex / the token) or has finished
@@ -135,7 +137,12 @@ func lockOrderSchedule(closer, opener string) (string, []string) {
 		return "DEADLOCK " + strings.Join(stuck, "+") + " never return", schedule
 	}
 	if bTxn != nil {
-		engine.Abort(bTxn)
+		if _, ok := timed(2*time.Second, func() { engine.Abort(bTxn) }); !ok {
+			return "HANG Abort of B's transaction", schedule
+		}
+		if p := takeTimedPanic(); p != "" {
+			return "PANIC in Abort: " + p, schedule
+		}
 	}
 	lungo.SetVerifHook(nil)
 	v, _ := engineEpilogue(engine, runtime.NumGoroutine()-1)
@@ -229,8 +236,7 @@ func engineStress(seed uint64, g, n int) string {
 					ct.exec(act, o)
 				}
 				if act.cur != nil {
-					engine.Abort(act.cur)
-					act.cur = nil
+					ct.exec(act, eop{kind: "abort"})
 				}
 			}
 		}()
@@ -298,7 +304,10 @@ func oracleC16(r *rng, n int, st *oracleStats) []oracleFailure {
 	}
 	for i := 0; i < n/25+1; i++ {
 		seed := r.u64() % 1000000007
-		v := engineStress(seed, 8, 150)
+		v := engineViaWorker(fmt.Sprintf("(stress %d 8 150)", seed))
+		if j := strings.Index(v, enginePackSep); j >= 0 {
+			v = v[j+len(enginePackSep):]
+		}
 		st.Evaluations++
 		st.Nontrivial++
 		st.Dist["stress:"+strings.SplitN(v, " ", 2)[0]]++
@@ -318,15 +327,18 @@ func oracleC04(r *rng, n int, st *oracleStats) []oracleFailure {
 	for i := 0; i < n; i++ {
 		seed := r.u64() % 1000000007
 		g, nn, k := 3+r.intn(6), 60+r.intn(141), 2*(2+r.intn(2))
-		h, v := runSerial(seed, g, nn, k)
+		packed := engineViaWorker(fmt.Sprintf("(serial (seed %d) (g %d) (n %d) (k %d))", seed, g, nn, k))
+		t, v := "", packed
+		if j := strings.Index(packed, serialPackSep); j >= 0 {
+			t, v = packed[:j], packed[j+len(serialPackSep):]
+		}
 		st.Evaluations++
 		st.Dist["verdict:"+strings.SplitN(v, " ", 2)[0]]++
-		if h != nil && len(h.writes) > 1 {
+		if strings.Count(t, "(inc ")+strings.Count(t, "(xfer ") > 1 {
 			st.Nontrivial++
 		}
-		if len(st.Samples) < 2 && h != nil {
-			t := h.text()
-			st.Samples = append(st.Samples, fmt.Sprintf("(serial (seed %d) (g %d) (n %d) %s...) => %s", seed, g, nn, t[:min(len(t), 200)], v))
+		if len(st.Samples) < 2 && t != "" {
+			st.Samples = append(st.Samples, t[:min(len(t), 260)]+"...) => "+v)
 		}
 		if v != "ok" && len(fails) < 10 {
 			fails = append(fails, oracleFailure{Property: "C04", Signature: "c04:" + strings.ToLower(strings.SplitN(v, " ", 2)[0]), What: v,
@@ -364,7 +376,11 @@ func init() {
 			return "20 re-executions of the recorded schedule end ok", false
 		case "stress":
 			for try := 0; try < 5; try++ {
-				if v := engineStress(d.Seed+uint64(try), 8, 150); v != "ok" {
+				v := engineViaWorker(fmt.Sprintf("(stress %d 8 150)", d.Seed+uint64(try)))
+				if j := strings.Index(v, enginePackSep); j >= 0 {
+					v = v[j+len(enginePackSep):]
+				}
+				if v != "ok" {
 					return "stress seed " + fmt.Sprint(d.Seed+uint64(try)) + " => " + v, true
 				}
 			}
@@ -379,7 +395,11 @@ func init() {
 		}
 		seed, g, n, k := serialParams(c)
 		for try := 0; try < 10; try++ {
-			if _, v := runSerial(seed+uint64(try), g, n, k); v != "ok" {
+			v := engineViaWorker(fmt.Sprintf("(serial (seed %d) (g %d) (n %d) (k %d))", seed+uint64(try), g, n, k))
+			if j := strings.Index(v, serialPackSep); j >= 0 {
+				v = v[j+len(serialPackSep):]
+			}
+			if v != "ok" {
 				return v, true
 			}
 		}
